@@ -118,6 +118,74 @@ func TestC16(t *testing.T) {
 			out.emit("iter", "bititer", []string{hx(v), strconv.Itoa(e)}, guard(func() string { return bitIterObs(v, e) }))
 		}
 	}
+	// several bit iterators alive at once, advanced in a random interleaving, new ones opened
+	// while finished ones are still being polled: each must yield what it yields alone
+	rounds := 30
+	if thorough() {
+		rounds = 600
+	}
+	for j := 0; j < rounds; j++ {
+		k := 2 + rng.Intn(4)
+		type live struct {
+			v     uint64
+			it    tree.GindexBitIter
+			want  int
+			extra int
+			sb    strings.Builder
+			depth uint32
+			open  bool
+		}
+		its := make([]*live, k)
+		for i := range its {
+			its[i] = &live{v: rng.Uint64()>>uint(rng.Intn(64)) | 1, extra: 1 + rng.Intn(4)}
+			if rng.Intn(4) == 0 {
+				its[i].v = uint64(2 + rng.Intn(14))
+			}
+		}
+		res := guard(func() string {
+			for {
+				pending := []*live{}
+				for _, l := range its {
+					if !l.open || l.want > 0 {
+						pending = append(pending, l)
+					}
+				}
+				if len(pending) == 0 {
+					return ""
+				}
+				l := pending[rng.Intn(len(pending))]
+				// mostly finish what is open before opening the next one: a finished iterator and
+				// a fresh one alive together is the interesting situation
+				if !l.open && rng.Intn(3) != 0 {
+					for _, o := range pending {
+						if o.open {
+							l = o
+						}
+					}
+				}
+				if !l.open {
+					l.it, l.depth = tree.Gindex64(l.v).BitIter()
+					l.open = true
+					l.want = int(l.depth) + l.extra
+					continue
+				}
+				r, ok := l.it.Next()
+				if ok {
+					l.sb.WriteString(b01(r))
+				} else {
+					l.sb.WriteString("x")
+				}
+				l.want--
+			}
+		})
+		for _, l := range its {
+			obs := "depth=" + hx(uint64(l.depth)) + " bits=" + l.sb.String()
+			if res == "PANIC" {
+				obs = "PANIC"
+			}
+			out.emit("iter-mix", "bititer", []string{hx(l.v), strconv.Itoa(l.extra)}, obs)
+		}
+	}
 	// ToGindex64 on an (index, depth) grid, depth over the whole uint8 range
 	idxs := []uint64{0, 1, 2, 3, 4, 7, 8, 255, 256, 1 << 31, 1<<32 - 1, 1 << 32, 1<<62 - 1, 1 << 62, 1<<63 - 1, 1 << 63, ^uint64(0)}
 	for j := 0; j < 12; j++ {
